@@ -1,8 +1,9 @@
-use std::{
-    io,
-    net::{SocketAddr, UdpSocket},
-    time::Duration,
-};
+use std::{io, net::SocketAddr, time::Duration};
+
+#[cfg(feature = "verif")]
+use crate::verif_net::UdpSocket;
+#[cfg(not(feature = "verif"))]
+use std::net::UdpSocket;
 
 use renetcode::{ClientAuthentication, DisconnectReason, NetcodeClient, NetcodeError, NETCODE_MAX_PACKET_BYTES};
 
